@@ -1788,7 +1788,8 @@ fn run_thfile(c: &Case) -> Obs {
             Err(e) => toks.push(format!("E:{}", e.text())),
             Ok(t) => toks.push(format!("{}:{}:{}", if vcf_fmt { "H".to_string() } else { cks(t) }, out.items.len(), out.stop.text())),
         }
-        if n > hdr || (n == total && bstop == Stop::Eof) {
+        // VCF (since ae9f807): read_header stops behind the #CHROM line, so the whole header text is enough
+        if n > hdr || (vcf_fmt && n == hdr) || (n == total && bstop == Stop::Eof) {
             // the whole header text and the first byte behind it (or the whole file) was delivered
             match &h {
                 Err(e) => fails.push((format!("{fmt}-intact-header-unreadable"), format!("cut {k}: {n} bytes delivered, header text has {hdr}: {}", e.text()))),
